@@ -283,7 +283,10 @@ func trRun(in trIn) interface{} {
 			}
 		}
 	}
-	out := J{"done": b, "err": err != nil, "net": trAbstract(cli), "mem": trGetMem(canaryKey), "touched": touched, "writes": writes}
+	// "recheck": the call asked the reconciler to come back after a POSITIVE duration (c.RecheckDuration); a retry
+	// without it is a wake-up that never comes (controller-runtime drops a RequeueAfter that is not positive)
+	out := J{"done": b, "err": err != nil, "net": trAbstract(cli), "mem": trGetMem(canaryKey), "touched": touched, "writes": writes,
+		"recheck": tc.RecheckDuration > 0}
 	grace.ResetExpectations()
 	return out
 }
